@@ -8,6 +8,7 @@ import (
 	"time"
 
 	"github.com/hashicorp/raft"
+	"github.com/rqlite/rqlite/v10/internal/vhook"
 	"github.com/rqlite/rqlite/v10/snapshot"
 )
 
@@ -73,14 +74,23 @@ func (f *FSMSnapshot) Persist(sink raft.SnapshotSink) (retError error) {
 		fsmSnapshotErrLogger.Printf("failed to persist %s snapshot %s: %v", f.Type, sink.ID(), err)
 		return err
 	}
+	vhook.Trace("store", "snap.persisted", "type", f.Type.String(), "id", sink.ID())
+	vhook.Crash("snap.persisted")
+	vhook.Gate("snap.persisted")
 	if f.Finalizer != nil {
-		return f.Finalizer()
+		err := f.Finalizer()
+		vhook.Trace("store", "snap.finalized", "err", err)
+		vhook.Crash("snap.finalized")
+		vhook.Gate("snap.finalized")
+		return err
 	}
 	return nil
 }
 
 // Release performs any final cleanup once the Snapshot has been persisted.
 func (f *FSMSnapshot) Release() {
+	vhook.Trace("store", "snap.release", "invoked", f.persistInvoked, "ok", f.persistSucceeded)
+	vhook.Crash("snap.release")
 	f.FSMSnapshot.Release()
 	if f.OnRelease != nil {
 		f.OnRelease(f.persistInvoked, f.persistSucceeded)
